@@ -439,7 +439,57 @@ def lerp_rules(rep, prog):
         rep.violate("C03.D3", "D3|missing-lerp", b.where(), "position and attribute are not both produced by Lerp::lerp between ClipVert fields (%s)" % sorted(info), config=cfg)
 
 
+def lerp_law(rep, prog):
+    """D6: for every implementor the clipper can interpolate, lerp(a, b, t) = a + t (b - a)
+    component-wise (polynomial identity from the MIR of the blanket and tuple impls): positions
+    and attributes are cut by the same affine law, so an attribute that is linear over the
+    triangle stays linear after clipping."""
+    from . import symalg as S
+    from fractions import Fraction
+    cfg = prog.config
+    lerp = prog.body("retrofire_core::<T as math::Lerp>::lerp")
+    COL = "retrofire_core::math::color::Color"
+
+    def want(n):
+        return [{("a%d" % i,): Fraction(1), ("b%d" % i, "t"): Fraction(1), ("a%d" % i, "t"): Fraction(-1)} for i in range(n)]
+    cases = [
+        ("f32", S.sym("a0"), S.sym("b0"), 1),
+        ("Vec3", S.vector(["a0", "a1", "a2"]), S.vector(["b0", "b1", "b2"]), 3),
+        ("ProjVec4", S.vector(["a0", "a1", "a2", "a3"]), S.vector(["b0", "b1", "b2", "b3"]), 4),
+        ("Point3", S.point(["a0", "a1", "a2"]), S.point(["b0", "b1", "b2"]), 3),
+        ("Color3f", ("adt", COL, "Color", [("array", [S.sym("a%d" % i) for i in range(3)]), ("tuple", [])]),
+         ("adt", COL, "Color", [("array", [S.sym("b%d" % i) for i in range(3)]), ("tuple", [])]), 3),
+    ]
+    for name, a, b, n in cases:
+        it = S.interp(prog)
+        try:
+            r = it.call_body(lerp, [S.ref_to(a), S.ref_to(b), S.sym("t")])
+            got = [S.to_poly(c) for c in S.components(it, r)]
+        except (A.Undecided, A.Panic, S.NotPolynomial) as e:
+            raise common.Infra("C03.D6: Lerp::lerp for %s could not be evaluated symbolically (%s)" % (name, e))
+        ok = got == want(n)
+        rep.inst("C03.D6", "lerp(a, b, t) = a + t (b - a) for %s: %s" % (name, ok), config=cfg)
+        if not ok:
+            rep.violate("C03.D6", "D6|lerp|%s" % name, lerp.where(), "Lerp::lerp for %s is not the affine combination a + t (b - a): %s" % (name, got[:2]), config=cfg)
+    tl = prog.bodies.get("retrofire_core::<(U, V) as math::Lerp>::lerp")
+    if tl is not None:
+        it = S.interp(prog)
+        a = ("tuple", [S.sym("a0"), S.vector(["a1", "a2"])])
+        b = ("tuple", [S.sym("b0"), S.vector(["b1", "b2"])])
+        try:
+            r = it.call_body(tl, [S.ref_to(a), S.ref_to(b), S.sym("t")])
+            r = A.deref_all(it, r)
+            got = [S.to_poly(A.deref_all(it, r[1][0]))] + [S.to_poly(c) for c in S.components(it, r[1][1])]
+        except (A.Undecided, A.Panic, S.NotPolynomial, IndexError, TypeError) as e:
+            raise common.Infra("C03.D6: tuple Lerp could not be evaluated symbolically (%s)" % e)
+        ok = got == want(3)
+        rep.inst("C03.D6", "lerp on (U, V) interpolates both members with the same t: %s" % ok, config=cfg)
+        if not ok:
+            rep.violate("C03.D6", "D6|lerp|tuple", tl.where(), "tuple Lerp does not interpolate both members by the same affine law", config=cfg)
+
+
 def check_config(rep, prog):
+    lerp_law(rep, prog)
     planes = table_rules(rep, prog)
     plane_fn_rules(rep, prog, planes)
     status_rules(rep, prog)
@@ -457,7 +507,7 @@ def check(rep, args):
                        "reachability / must-pass / provenance rules on Clip::clip and ClipPlane::clip_simple_polygon",
         "evaluations": len(rep.instances),
         "distinct_nontrivial": len({i["what"] for i in rep.instances}),
-        "rules": ["T1", "T2", "D1", "D2", "D3", "D4", "D5"],
+        "rules": ["T1", "T2", "D1", "D2", "D3", "D4", "D5", "D6"],
     }
     return "other", cov, ["exactness of the clipped region and attribute values are numeric and not decided",
                           "Vec::clear/extend/push behave as documented"]
